@@ -110,6 +110,16 @@ def run_case(case):
                         raise Violation("get-cell-wrong-row", f"{case}: get_cell{args} returned pos={row['pos']} mark={row['mark']}")
                     if row.name != cid:
                         raise Violation("get-cell-wrong-row", f"{case}: get_cell{args} returned row {row.name}, id is {cid}")
+                    if args is calls[0] and (x + y + z) % 3 == 0:
+                        # the caller writes into the row it was handed (a scratch edit); the next lookup shows the cell's own values
+                        try:
+                            row["mark"] = -12345
+                        except Exception:
+                            pass                    # a read-only row is fine too
+                        row2 = world.get_cell(*args)
+                        if row2["mark"] != mark((x, y, z), None) or tuple(row2["pos"]) != (x, y, z):
+                            raise Violation("lookup-changed-after-caller-edited-the-row", f"{case}: get_cell{args} after the caller edited the row it "
+                                                                                           f"had been handed: mark={row2['mark']} pos={row2['pos']}")
     # just outside, both sides of every axis
     outside = set()
     for z in range(ed):
